@@ -3,8 +3,9 @@
 spec/C18/Tracing.tla        P-spec as a trace specification: OncePerAttempt, ExactElements, OldValueHints,
                             ReplayLocals, OwnClock, Causal, folded by TLC over the recorded attempts (verdicts)
 spec/C18/VClock.tla         M-spec of the vector-clock plumbing (operators; Fix = "none" pinned / "vars" repaired)
-spec/C18/MCVClock.tla       all programs x schedules within bounds on the M-spec (design level, Causal) and the
-                            random program generator (-simulate, one case per behaviour)
+spec/C18/MCVClock.tla       all programs x schedules within bounds on the M-spec (design level, Causal, VarClocksMonotone),
+                            the random program generator (-simulate, one case per behaviour) and the exhaustive
+                            counterexample generator of the broken variant Fix = "vars-rollback" (seed C18-B)
 spec/C18/TracePatterns.tla  directed family of communication patterns, exported by TLC
 spec/C18/VClockTrace.tla    M-level conformance of the logged clocks (a mismatch is drift, not a verdict)
 harness/cmd/c18drv          runs the cases on the real runtime (PGO_TRACE_DIR set at process start) under a
@@ -14,6 +15,7 @@ harness/cmd/c18drv          runs the cases on the real runtime (PGO_TRACE_DIR se
 import concurrent.futures
 import json
 import os
+import random
 import re
 import shutil
 import tempfile
@@ -72,7 +74,7 @@ def classify_causal(seg, att, pair):
     """Name the input class of a Causal violation: the medium of the edge written by the dominated
     writer and the shape of the writer's attempt (classification of TLC's verdict, not a verdict)."""
     opi, tok = pair
-    for ln in seg:
+    for wi, ln in enumerate(seg):
         if ln.get("e") != "att":
             continue
         for j, op in enumerate(ln["ops"]):
@@ -83,6 +85,12 @@ def classify_causal(seg, att, pair):
                     shape = "send-then-witness" if later else "send-last"
                 else:
                     shape = "write-then-witness" if later else "write-last"
+                    # seed C18-B: an aborted attempt touched the variable (its clock cell) between the
+                    # writer's commit and the rejected reader
+                    ri = next((i for i, x in enumerate(seg) if x is att), len(seg))
+                    if any(x.get("e") == "att" and x.get("ab") and any(o.get("ck") == op.get("ck") for o in x["ops"])
+                           for x in seg[wi + 1:ri]):
+                        shape += ":aborted-access-between"
                 return kind, shape
     return "unknown", "unknown"
 
@@ -115,6 +123,13 @@ def run(chk):
                     simulate="num=%d" % num, depth=depth, seed=seed)
         return "generator %s (-simulate num=%d seed=%d)" % (cfg, num, seed), res, "gen:" + tag
 
+    def genxjob(cfg, tag):
+        """generator by exhaustive search: every bad final state of the (deliberately broken) model emits a program"""
+        d = os.path.join(chk.tmp, "gen-" + cfg)
+        V.copy_specs(specsrc, d)
+        res = V.tlc(d, "MCVClock", cfg=cfg, workers=1, timeout=TLC_T, deadlock=False)
+        return "generator %s (exhaustive, VIEW without the program text)" % cfg, res, "genx:" + tag
+
     def patjob():
         res = V.tlc(work, "TracePatterns", cfg="TracePatterns.cfg", workers=1, timeout=TLC_T, deadlock=False)
         return "TracePatterns (directed family, exported)", res, False
@@ -124,6 +139,10 @@ def run(chk):
         jobs.append(patjob)
         w = 2 if quick else 4
         jobs += [
+            # seed C18-B: every counterexample of the model whose aborts roll a variable's clock back (Fix = "vars-rollback")
+            # as a program (sampled by seed in the quick tier); a non-empty result is also the vacuity guard: TLC rejects
+            # the broken variant on Causal (the explicit INVARIANT run MCVarsRollback.cfg is in the thorough tier)
+            lambda: genxjob("GenBadRollback.cfg", "cexRollback"),
             lambda: mcjob("MCVClock repaired protocol, shared variables, 3 contexts (Causal)", "MCVarsQ.cfg", w),
             lambda: mcjob("MCVClock repaired protocol, channel + local hop + aborts, 2 contexts (Causal)", "MCChanQ.cfg", w),
             lambda: mcjob("MCVClock repaired protocol, TCP mailboxes with send-last sections (Causal)", "MCTcpQ.cfg", w),
@@ -138,6 +157,8 @@ def run(chk):
         ]
         if not quick:
             jobs += [
+                lambda: mcjob("MCVClock repaired protocol, variable + channel, 3 contexts, 4 attempts with aborts (Causal, VarClocksMonotone)", "MCVarsAbortQ.cfg", 4),
+                lambda: mcjob("MCVClock variable clock rolled back by an abort (expected: Causal violated on the model = seed C18-B)", "MCVarsRollback.cfg", 4, True),
                 lambda: mcjob("MCVClock repaired, shared variables, 4 attempts with aborts", "MCVarsT.cfg", 4),
                 lambda: mcjob("MCVClock repaired, channel + local hop, 4 attempts", "MCChanT.cfg", 4),
                 lambda: mcjob("MCVClock repaired, TCP + channel + variable, send-last, 4 attempts with aborts", "MCTcpT.cfg", 4),
@@ -145,20 +166,28 @@ def run(chk):
             ]
     sim_cases = []
     design_ok = True
-    with concurrent.futures.ThreadPoolExecutor(max_workers=5 if quick else 6) as ex:
+    with concurrent.futures.ThreadPoolExecutor(max_workers=6) as ex:
         for name, res, expect in ex.map(lambda j: j(), jobs):
-            if isinstance(expect, str) and expect.startswith("gen:"):
+            if isinstance(expect, str) and expect.startswith(("gen:", "genx:")):
                 chk.add_tlc(name, res)
-                k = 0
+                tag = expect.split(":", 1)[1]
+                got = []
                 for m in re.finditer(r'^"C18CASE (.*)"$', res.out, re.M):
                     try:
                         c = json.loads(json.loads('"' + m.group(1) + '"'))
                     except ValueError:
                         continue
-                    k += 1
-                    c["id"] = "%s%d" % (expect[4:], k)
-                    sim_cases.append(c)
-                chk.notes.setdefault("generated", {})[expect[4:]] = k
+                    c["id"] = "%s%d" % (tag, len(got) + 1)
+                    got.append(c)
+                chk.notes.setdefault("generated", {})[tag] = len(got)
+                if expect.startswith("genx:"):
+                    # every emitted program is a behaviour on which TLC evaluated Causal (ok) to FALSE in the broken model
+                    chk.notes.setdefault("expected_model_counterexamples", {})[name] = bool(got)
+                    if not got:
+                        chk.gaps.append("the deliberately defective model was NOT rejected (no counterexample program): " + name)
+                    elif quick and len(got) > 8:
+                        got = random.Random(chk.seed).sample(got, 8)
+                sim_cases += got
             elif expect:
                 chk.tlc_jobs.append(res.summary(name))
                 chk.notes.setdefault("expected_model_counterexamples", {})[name] = bool(res.violation)
